@@ -1,11 +1,8 @@
 (** Evaluator of the C10 correspondence stream.
 
-    One generated case is one of five kinds (all instants/durations in
+    One generated case is one of four kinds (all instants/durations in
     nanoseconds, `exp`/NotAfter of the seconds-based mechanisms in seconds):
 
-    [CFn]    one call of a real [getCacheTTL] (introspection, jwt key cache,
-             generic authenticator, client credentials) on a mechanism instance
-             with ttl state [st] and expiry information [exp];
     [CExec]  a mechanism created by the real factory from a prototype `cache_ttl`
              [conf] and a rule-level `cache_ttl` [rule], executed once against a
              recording cache: was the cache looked up, which ttl went to [Set];
@@ -52,65 +49,33 @@ Definition stored_ok (m : mech) (cfg exp : option Z) (ts t : Z) : bool :=
 Definition cfg_zero (cfg : option Z) : bool :=
   match cfg with Some c => c =? 0 | None => false end.
 
-(** ** [CFn] *)
-
-Definition ttl_fn (f : fixes) (m : mech) (st exp : option Z) (now : Z) : Z :=
-  match m with
-  | MIntro => ttl_introspection f st exp now
-  | MJwtKey => ttl_jwt_key f st exp now
-  | MClientCred => ttl_client_credentials f st exp now
-  | MGeneric => ttl_generic (val st) exp now
-  | _ => 0
-  end.
-
 Definition between (lo x hi : Z) : bool := (lo <=? x) && (x <=? hi).
 
-Definition fn_corr (f : fixes) (m : mech) (st exp : option Z) (now dmax o : Z) : bool :=
-  between (ttl_fn f m st exp (now + dmax)) o (ttl_fn f m st exp now).
-
-(** the function's value [o] is what the caller stores iff [o > 0] *)
-Definition fn_prop (m : mech) (st exp : option Z) (now dmax o : Z) : bool :=
-  if o >? 0 then stored_ok m st exp (now + dmax) o
-  else true.
-
-Definition fn_zero_prop (st : option Z) (o : Z) : bool :=
-  if cfg_zero st then o <=? 0 else true.
+(** Correspondence for [CExec] and [CHttp] is REFINEMENT, not equality: the
+    implementation may be more careful than the model (look up less, store less,
+    store for a shorter time) -- the property statement fixes upper bounds only,
+    so a conservative change of a leeway or default constant is not a
+    disagreement.  It may never be more permissive than the model. *)
 
 (** ** [CExec] *)
 
 Record eobs := { eo_ok : bool; eo_lookup : bool; eo_set : option Z; eo_tokexp : option Z }.
-
-(** would a fresh answer be accepted at all?  (introspection response /
-    session with `exp` in the past beyond the leeway is rejected before
-    anything is cached; everything else generated by the driver is accepted) *)
-Definition fresh_accepted (m : mech) (exp : option Z) (now : Z) : bool :=
-  match m, exp with
-  | MIntro, Some e => negb (unix now - 10 >=? e)                 (* Expectation.AssertValidity after a3a89b7 *)
-  | MGeneric, Some e => negb ((e >? 0) && (unix now - 10 >=? e)) (* SessionLifespan.assertValidity *)
-  | _, _ => true
-  end.
 
 Definition exec_state (f : fixes) (m : mech) (conf rule : option Z) : option Z :=
   withconfig_ttl f m (create_ttl m conf) rule.
 
 Definition exec_corr (f : fixes) (m : mech) (conf rule exp : option Z) (now dmax : Z) (o : eobs) : bool :=
   let st := exec_state f m conf rule in
-  let acc := fresh_accepted m exp now in
-  Bool.eqb (eo_ok o) acc &&
-  Bool.eqb (eo_lookup o) (lookup_enabled m st) &&
-  (if acc then
-     match store f m st exp now, store f m st exp (now + dmax), eo_set o with
-     | Some hi, Some lo, Some t => between lo t hi
-     | None, None, None => true
-     | _, _, _ => false
-     end
-   else negb (is_some (eo_set o))) &&
-  (match m, eo_tokexp o with
-   | MJwtFin, Some te => between (unix (now + val st)) te (unix (now + dmax + val st))
-   | MJwtFin, None => negb (eo_ok o)
-   | _, None => true
-   | _, Some _ => false
-   end).
+  implb (eo_lookup o) (lookup_enabled m st) &&
+  match eo_set o with
+  | None => true
+  | Some t => (0 <? t) && match store f m st exp now with Some hi => t <=? hi | None => false end
+  end &&
+  (* the token issued by the jwt finalizer lives at least as long as the model says *)
+  match m, eo_tokexp o with
+  | MJwtFin, Some te => unix (now + val st) <=? te
+  | _, _ => true
+  end.
 
 Definition exec_prop (m : mech) (conf rule exp : option Z) (now dmax : Z) (o : eobs) : bool :=
   let cfg := spec_cfg m conf rule in
@@ -127,25 +92,39 @@ Definition exec_prop (m : mech) (conf rule exp : option Z) (now dmax : Z) (o : e
       end
   end.
 
-(** ** [CHttp] *)
+(** ** [CHttp]
 
-Definition http_corr (f : fixes) (b : backend) (cachable : bool) (life : option Z) (dflt dmax : Z)
-           (o_set : option Z) (o_hit : bool) : bool :=
-  match http_store_decision f cachable life dflt 0 0,
-        http_store_decision f cachable life dflt 0 dmax, o_set with
-  | Some hi, Some lo, Some t =>
-      between lo t hi &&
-      Bool.eqb o_hit (is_some (cget b dmax 1 (cset b 0 1 tt t [])))
-  | None, None, None => negb o_hit
-  | _, _, _ => false
+    [h]: the header values as the driver's own RFC 7234 reader parsed them;
+    [cachable]: pquerna/cachecontrol's verdict on cachability (oracle);
+    [now .. now + dmax]: bracket around the first request (one clock second);
+    [o_nsets]/[o_set]: number of Set calls / the ttl of the first one;
+    [o_hit]: the second request, sent [tget] after the Set instant (at most
+    [tget + dmax]), was answered without reaching the transport. *)
+
+Definition mkh (maxage : option Z) (expires : option (option Z)) (date : option Z) (age : Z) : hvals :=
+  {| hv_maxage := maxage; hv_expires := expires; hv_date := date; hv_age := age |}.
+
+Definition http_corr (f : fixes) (b : backend) (cachable : bool) (h : hvals) (dflt now dmax tget : Z)
+           (o_nsets : Z) (o_set : option Z) (o_hit : bool) : bool :=
+  (o_nsets =? (if is_some o_set then 1 else 0)) &&
+  match o_set with
+  | Some t =>
+      (0 <? t) &&
+      match http_store_hdr f cachable h dflt now now with Some hi => t <=? hi | None => false end &&
+      implb o_hit (is_some (cget b tget 1 (cset b 0 1 tt t [])))
+  | None => negb o_hit
   end.
 
-Definition http_prop (life : option Z) (dflt : Z) (o_set : option Z) (o_hit : bool) : bool :=
-  let l := match life with Some l => Some l | None => if dflt =? 0 then None else Some dflt end in
-  match l with
-  | Some l => (if l <=? 0 then negb o_hit else true) &&
-              match o_set with Some t => if 0 <? t then t <=? l else true | None => true end
-  | None => negb o_hit
+(** the property on the observation: a response is handed to the cache only
+    with a positive ttl within the RFC 7234 freshness it has left on arrival
+    (so not at all when that is zero, negative or absent), and it is served from
+    cache only within it *)
+Definition http_prop (h : hvals) (dflt now dmax tget : Z) (o_set : option Z) (o_hit : bool) : bool :=
+  match rfc_remaining h dflt now with
+  | Some l =>
+      match o_set with Some t => (0 <? t) && (t <=? l) | None => true end &&
+      (if o_hit then tget <=? l else true)
+  | None => negb (is_some o_set) && negb o_hit
   end.
 
 (** ** [CCache] *)
@@ -280,41 +259,38 @@ Definition hist_guards (f : fixes) (b : backend) (hk : hkind) (evs : list hevent
 (** ** the case type and [check] *)
 
 Inductive case :=
-| CFn (m : mech) (st exp : option Z) (now dmax : Z) (obs : Z)
 | CExec (m : mech) (conf rule exp : option Z) (now dmax : Z) (obs : eobs)
-| CHttp (b : backend) (method_ok vary cachable : bool) (life : option Z) (dflt dmax : Z)
-        (o_lookup : bool) (o_set : option Z) (o_hit : bool)
+| CHttp (b : backend) (cachable : bool) (h : hvals) (dflt now dmax tget : Z)
+        (o_nsets : Z) (o_set : option Z) (o_hit : bool)
 | CCache (b : backend) (ops : list cop)
-| CHist (b : backend) (hk : hkind) (slack : Z) (evs : list hevent) (obs : list hobs).
+| CHist (b : backend) (hk : hkind) (slack xsets : Z) (evs : list hevent) (obs : list hobs)
+| CBroken.  (* the driver could not run the case (harness error): never passes *)
 
 Definition check (f : fixes) (c : case) : verdict :=
   match c with
-  | CFn m st exp now dmax o =>
-      {| v_corr := fn_corr f m st exp now dmax o;
-         v_prop := fn_prop m st exp now dmax o && fn_zero_prop st o;
-         v_guards := guards [(1, guard_F1 f m st exp now || guard_F1 f m st exp (now + dmax))] |}
   | CExec m conf rule exp now dmax o =>
       let st := exec_state f m conf rule in
       {| v_corr := exec_corr f m conf rule exp now dmax o;
          v_prop := exec_prop m conf rule exp now dmax o;
          v_guards := guards [(1, guard_F1 f m st exp now || guard_F1 f m st exp (now + dmax));
                              (3, guard_F3 f m conf rule)] |}
-  | CHttp b method_ok vary cachable life dflt dmax o_lookup o_set o_hit =>
-      let cb := http_storable method_ok vary cachable in
-      {| v_corr := Bool.eqb o_lookup (http_lookup method_ok) && http_corr f b cb life dflt dmax o_set o_hit;
-         v_prop := http_prop life dflt o_set o_hit;
-         v_guards := guards [(2, cb && g_F2 f life dflt 0)] |}
+  | CHttp b cachable h dflt now dmax tget o_nsets o_set o_hit =>
+      {| v_corr := http_corr f b cachable h dflt now dmax tget o_nsets o_set o_hit;
+         v_prop := http_prop h dflt now dmax tget o_set o_hit;
+         v_guards := guards [(2, negb (fx2 f)); (4, guard_F4 f h dflt now)] |}
   | CCache b ops =>
       {| v_corr := cache_corr b [] ops; v_prop := cache_prop [] ops; v_guards := [] |}
-  | CHist b hk slack evs obs =>
-      {| v_corr := hist_corr slack (hist_run f b hk evs) obs;
+  | CHist b hk slack xsets evs obs =>
+      (* [xsets]: Set calls made while a request was answered from cache (the model makes none) *)
+      {| v_corr := (xsets =? 0) && hist_corr slack (hist_run f b hk evs) obs;
          v_prop := hist_prop_from slack hk evs obs evs obs;
          v_guards := guards (hist_guards f b hk evs) |}
+  | CBroken => {| v_corr := false; v_prop := true; v_guards := [] |}
   end.
 
 (** short constructors for the generated case files *)
 Definition eo (ok lookup : bool) (s tokexp : option Z) : eobs :=
   {| eo_ok := ok; eo_lookup := lookup; eo_set := s; eo_tokexp := tokexp |}.
 
-(** [mkfx a b c]: which of fixes/C10-F1.diff, -F2.diff, -F3.diff the implementation under test contains *)
-Definition mkfx (a b c : bool) : fixes := {| fx1 := a; fx2 := b; fx3 := c |}.
+(** [mkfx a b c d e]: which of the repairs of C10-F1 .. C10-F5 the implementation under test contains *)
+Definition mkfx (a b c d e : bool) : fixes := {| fx1 := a; fx2 := b; fx3 := c; fx4 := d; fx5 := e |}.
